@@ -28,8 +28,8 @@ CHECKS = {
   note="The single-transaction HTTP handlers are outside the claim. Trusted: engine, solver, InMemoryStore as the durable store.",
   ref="DESIGN §5 C09"),
  "C10": dict(
-  text="Bounded symbolic model checking of RevertTransaction through the real Commander: 9 original posting patterns x forced/unforced x with/without an intermediate spend, symbolic non-negative amounts and balances; revert postings = reversed original with swapped ends, reverted flag, balances restored when nothing moved, unforced revert refused with insufficient funds and never overdrawing, second revert refused.",
-  note="Racing reverts (schedules) are not part of this check. Trusted: engine, solver, InMemoryStore.",
+  text="Bounded symbolic model checking of RevertTransaction through the real Commander: 11 original posting patterns (1-5 postings) x forced/unforced x with/without an intermediate spend, symbolic non-negative amounts and balances; TransactionData.Reverse alone on 0..7 postings; 2-3 racing reverts under every schedule within the pre-emption budget; revert postings = reversed original with swapped ends, reverted flag, balances restored when nothing moved, unforced revert refused with insufficient funds and never overdrawing, second revert refused.",
+  note="Trusted: engine, solver, InMemoryStore.",
   ref="DESIGN §5 C10"),
  "C13": dict(
   text="Bounded symbolic model checking of the log round trip: every log kind the commander can write (7 write kinds incl. delete-metadata on accounts and transactions; metadata of one entry, nil, empty, two entries) is produced by the real write path with symbolic ids and amounts, encoded by the rope-level JSON model (interpreting the repository's MarshalJSON/UnmarshalJSON methods), decoded by ChainedLog.UnmarshalJSON/HydrateLog, re-encoded (text equality decided on ropes) and its hash recomputed from the round-tripped entry and its predecessor.",
@@ -56,19 +56,19 @@ CHECKS = {
   note="bun's escaping of bound arguments is a library contract and not encoded (but the number of ? bytes of the clause, which bun substitutes quoted or not, must not depend on client text); backslash is assumed literal inside SQL quotes (standard_conforming_strings). The scanner in the harness is the oracle.",
   ref="DESIGN §5 C20"),
  "C02": dict(
-  text="Bounded symbolic model checking with schedules as decisions: the real Commander, DefaultLocker, Referencer, Batcher and job.Runner run on engine threads with a Yield before every statement (overlay instrumentation); two concurrent sends from one account — the source named literally, by an account variable, or through meta() — with symbolic opening balance and amounts; after quiescence the persisted log is replayed in order and every posting must be covered at its position (z3 finds 'both accepted and a1+a2 > balance' otherwise), and every Lock call must carry the resolved source in its write set.",
+  text="Bounded symbolic model checking with schedules as decisions: the real Commander, DefaultLocker, Referencer, Batcher and job.Runner run on engine threads with a Yield before every statement (overlay instrumentation); two concurrent sends from one account — the source named literally, by an account variable, or through meta(), one or both clients possibly giving up (context cancelled by a separate thread at an arbitrary moment) — with symbolic opening balance and amounts; after quiescence the persisted log is replayed in order and every posting must be covered at its position (z3 finds 'both accepted and a1+a2 > balance' otherwise), and every Lock call must carry the resolved source in its write set.",
   note="Bound: pre-emption budget 1 (thorough 2) at statement boundaries of the instrumented files, switches forced by blocking resolved deterministically (lowest thread id); each Store call atomic; InMemoryStore stands for the database. Counterexample schedules are replayed natively by a schedule controller (goroutine gating at the same yields).",
   ref="DESIGN §5 C02"),
  "C05": dict(
-  text="Bounded symbolic model checking with schedules and one crash as decisions: 2 (thorough 3) concurrent writes of all kinds from a symbolic tail (L, N), the process may stop at any statement boundary, then a new Commander is initialised on the same store and writes again; log ids L+1.. in insertion order, every hash recomputed from its predecessor (sha256 as injective token, JSON model), transaction ids N+1.. in log order — before and after the restart.",
+  text="Bounded symbolic model checking with schedules and one crash as decisions: 2 (thorough 3) concurrent writes of all kinds from a symbolic tail (L, N), the process may stop at any statement boundary, then a new Commander is initialised on the same store and writes again; log ids L+1.. in insertion order, every hash recomputed from its predecessor (sha256 as injective token, JSON model), transaction ids N+1.. in log order — before and after the restart. ZZ_C05Fresh: 6 staged histories on a ledger that starts empty, with a stop-or-crash and restart between stages (including while the log holds no transaction): ids and transaction ids from 0, first entry chained on nothing.",
   note="Bound: pre-emption budget 1 (thorough 2) at statement boundaries of the instrumented files, switches forced by blocking resolved deterministically (lowest thread id); each Store call atomic; InMemoryStore stands for the database. Counterexample schedules are replayed natively by a schedule controller (goroutine gating at the same yields).",
   ref="DESIGN §5 C05"),
  "C06": dict(
-  text="Bounded symbolic model checking with schedules, one crash and an InsertLogs fault as decisions/variables: at the instant a write returns success its marker must already be in the persisted log (asserted inside the client thread), acknowledged writes and log entries are in bijection at quiescence, failed or cut-off writes leave at most nothing/one entry, no entry without a request; an injected InsertLogs failure stops the process without acknowledging.",
+  text="Bounded symbolic model checking with schedules, one crash and an InsertLogs fault as decisions/variables: at the instant a write returns success its marker must already be in the persisted log (asserted inside the client thread), acknowledged writes and log entries are in bijection at quiescence, failed or cut-off writes leave at most nothing/one entry, no entry without a request; an injected InsertLogs failure stops the process without acknowledging. ZZ_C06Batch: every composition of batches — Batcher.nextBatch from 0..5 pending items with arbitrary values, maximum batch size 1..3, late arrivals between the cuts: each item in exactly one batch, in order, no batch above the maximum, a cut batch never altered, each callback once.",
   note="Bound: pre-emption budget 1 (thorough 2) at statement boundaries of the instrumented files, switches forced by blocking resolved deterministically (lowest thread id); each Store call atomic; InMemoryStore stands for the database. Counterexample schedules are replayed natively by a schedule controller (goroutine gating at the same yields). A failing InsertLogs persists nothing (one database transaction per batch).",
   ref="DESIGN §5 C06"),
  "C07": dict(
-  text="Bounded symbolic model checking with schedules and one crash: two concurrent writes sharing an idempotency key (create/create, metadata/metadata, create/metadata, revert/revert), then stop-or-crash, restart and a retry with the same key; at most one log entry carries the key and all successful responses name the same transaction.",
+  text="Bounded symbolic model checking with schedules and one crash: two concurrent writes sharing an idempotency key (create/create, metadata/metadata, create/metadata, revert/revert; optionally a third, key-less create whose transaction reference equals the key), then stop-or-crash, restart and a retry with the same key; at most one log entry carries the key and all successful responses name the same transaction.",
   note="Bound: pre-emption budget 1 (thorough 2) at statement boundaries of the instrumented files, switches forced by blocking resolved deterministically (lowest thread id); each Store call atomic; InMemoryStore stands for the database. Counterexample schedules are replayed natively by a schedule controller (goroutine gating at the same yields).",
   ref="DESIGN §5 C07"),
  "C11": dict(
@@ -76,7 +76,7 @@ CHECKS = {
   note="Bound: pre-emption budget 1 (thorough 2) at statement boundaries of the instrumented files, switches forced by blocking resolved deterministically (lowest thread id); each Store call atomic; InMemoryStore stands for the database. Counterexample schedules are replayed natively by a schedule controller (goroutine gating at the same yields).",
   ref="DESIGN §5 C11"),
  "C15": dict(
-  text="Bounded symbolic model checking of the lock manager alone: 14 populations of 2-3 requests with read/write sets over two accounts, optionally one request cancelled by a separate thread at an arbitrary moment; every schedule with at most 1 (thorough 2) pre-emptions at statement boundaries of lock.go and linked_list.go, all blocking switches and select choices explored; exclusion when Lock returns, progress and no leftover lock or queued intent at quiescence.",
+  text="Bounded symbolic model checking of the lock manager alone: 14 populations of 2-3 requests with read/write sets over two accounts, optionally one request cancelled by a separate thread at an arbitrary moment; every schedule with at most 1 (thorough 2) pre-emptions at statement boundaries of lock.go and linked_list.go, all blocking switches and select choices explored; exclusion when Lock returns, progress and no leftover lock or queued intent at quiescence; 6 staged-release populations in which holders release one at a time: whenever the system is at rest, every pending request conflicts with a current holder.",
   note="The inputs are schedules and cancellation moments (decisions); the solver's part is feasibility. Counterexample schedules are replayed natively by the schedule controller.",
   ref="DESIGN §5 C15"),
  "C17": dict(
